@@ -21,6 +21,7 @@ import (
 	"fmt"
 	"io/ioutil"
 	"path/filepath"
+	"strconv"
 	"strings"
 
 	"github.com/cloudwego/hertz/cmd/hz/generator/model"
@@ -92,11 +93,18 @@ func handlerFileName(name string) string {
 }
 
 func (pkgGen *HttpPackageGenerator) genHandler(pkg *HttpPackage, handlerDir, handlerPackage string, root *RouterNode) error {
+	fileOwner := make(map[string]string) // handler file -> name of the method it was chosen for
 	for _, s := range pkg.Services {
 		var handler Handler
 		if pkgGen.HandlerByMethod { // generate handler by method
 			for _, m := range s.Methods {
 				filePath := filepath.Join(handlerDir, m.OutputDir, handlerFileName(m.Name))
+				// "GetURL" and "GetUrl" (or "PingTest" and "PingTestHandler") lead to the same file name;
+				// the file of the later method must not replace the file of the earlier one
+				for n := 2; fileOwner[filePath] != "" && fileOwner[filePath] != m.Name; n++ {
+					filePath = filepath.Join(handlerDir, m.OutputDir, strings.TrimSuffix(handlerFileName(m.Name), ".go")+"_"+strconv.Itoa(n)+".go")
+				}
+				fileOwner[filePath] = m.Name
 				handler = Handler{
 					FilePath:    filePath,
 					PackageName: util.SplitPackage(filepath.Dir(filePath), ""),
